@@ -49,10 +49,11 @@ func gen(g *kernel.Rng, seed uint64, tier string) *kernel.Plan {
 		dup := int64(g.Pick(4, 1))
 		if !connected && g.Bool(0.5) {
 			connected = true
-			p.Ops = append(p.Ops, kernel.Op{K: "connect", T: 0, N: []int64{4, mode, dup, int64(g.Range(1, 20)), int64(g.U32()), int64(g.Pick(4, 1))}})
+			p.Ops = append(p.Ops, kernel.Op{K: "connect", T: 0, N: []int64{4, mode, dup, int64(g.Range(1, 20)), int64(g.U32()), int64(g.Pick(4, 1)), int64(g.Pick(4, 1))}})
 			continue
 		}
-		p.Ops = append(p.Ops, kernel.Op{K: "createStream", T: 0, N: []int64{tid, mode, dup, int64(g.Pick(5, 1))}})
+		// the last argument: the peer sends a user-control ping request ahead of this response
+		p.Ops = append(p.Ops, kernel.Op{K: "createStream", T: 0, N: []int64{tid, mode, dup, int64(g.Pick(5, 1)), int64(g.Pick(4, 1))}})
 		tid += 4 * g.OneOf(1, 1, 2, 3, 15, 16, 31, 32, 63, 64, 255, 256, 1000)
 	}
 	if g.Bool(0.25) {
@@ -88,6 +89,7 @@ type pend struct {
 	mode int64
 	dup  int64
 	scs  int64 // the peer announces a new chunk size right before this response
+	ping int64 // the peer sends a user-control ping request right before this response
 }
 
 // porcupine model: the set of outstanding transaction ids.
@@ -163,7 +165,7 @@ func run(p *kernel.Plan) (res *kernel.Result) {
 	wfailed := false  // touched by task Aw only
 	var reqs []reqRec // written by task Aw only
 	var decs []decRec // written by task Ar only
-	var answered, dupSent, scsSent int
+	var answered, dupSent, scsSent, pingSent int
 	// packets are built here, outside the tasks (building uses fmt; see Task.Evf)
 	pkts := make([]rtmp.Packet, len(p.Ops))
 	for i, op := range p.Ops {
@@ -226,6 +228,10 @@ func run(p *kernel.Plan) (res *kernel.Result) {
 				if m.MessageType == rtmp.MessageTypeSetChunkSize {
 					continue // the peer's chunk size announcement (applied by ReadMessage)
 				}
+				if m.MessageType == rtmp.MessageTypeUserControl {
+					e.Proto.DecodeMessage(m) // the peer's ping request: not a response
+					continue
+				}
 				if tid, ok := peekTid(m.Payload); ok {
 					d.tid, d.hasTid = tid, true
 				}
@@ -256,6 +262,15 @@ func run(p *kernel.Plan) (res *kernel.Result) {
 					return false
 				}
 				scsSent++
+			}
+			if q.ping != 0 {
+				uc := rtmp.NewUserControl()
+				uc.EventType = rtmp.EventTypePingRequest
+				uc.EventData = int32(1000 + answered)
+				if err := e.Proto.WritePacket(uc, 0); err != nil {
+					return false
+				}
+				pingSent++
 			}
 			n := 1 + int(q.dup)
 			for k := 0; k < n; k++ {
@@ -312,6 +327,11 @@ func run(p *kernel.Plan) (res *kernel.Result) {
 					q.scs = how[k].N[5]
 				} else if how[k].K == "createStream" && len(how[k].N) > 3 {
 					q.scs = how[k].N[3]
+				}
+				if how[k].K == "connect" && len(how[k].N) > 6 {
+					q.ping = how[k].N[6]
+				} else if how[k].K == "createStream" && len(how[k].N) > 4 {
+					q.ping = how[k].N[4]
 				}
 			}
 			k++
@@ -460,6 +480,7 @@ func run(p *kernel.Plan) (res *kernel.Result) {
 	res.Stat("responses_decoded_inside_write_call", int64(inWrite))
 	res.Stat("duplicate_responses", int64(dupSent))
 	res.Stat("peer_set_chunk_size_before_response", int64(scsSent))
+	res.Stat("peer_ping_request_before_response", int64(pingSent))
 	res.Nontrivial = len(reqs) > 0
 	res.State = uint64(len(reqs))<<16 | uint64(inWrite)<<8 | uint64(dupSent)
 	return res
